@@ -24,6 +24,7 @@ mod prio3rec;
 mod poplar1rec;
 mod c13;
 mod c14;
+mod c15;
 mod c16;
 mod c19;
 mod c20;
@@ -65,6 +66,7 @@ fn main() {
         ("c06", "record") => c06::record(rest, stdin_lines()),
         ("poplar1", "record") => poplar1rec::record(rest),
         ("c14", "record") => c14::record(rest),
+        ("c15", "replay") => c15::replay(stdin_lines()),
         ("c12", "replay") => c12::replay(rest[0].parse().unwrap(), stdin_lines()),
         (p, m) => {
             eprintln!("unknown property/mode {p} {m}");
